@@ -227,7 +227,8 @@ func normaliseTies(rows []string, keys string) []string {
 	return out
 }
 
-var xwords = []string{"ant", "bee", "cow", "cow", "dog", "Ant", "", "zebra", "b e", "cow2"}
+// (words that spell keywords and operators: a quoted literal is a string whatever it spells)
+var xwords = []string{"ant", "bee", "cow", "cow", "dog", "Ant", "", "zebra", "b e", "cow2", "true", "left", "=", "or"}
 
 func genVal(r *hx.Rng, ty string, small bool) interface{} {
 	switch ty {
@@ -484,6 +485,14 @@ func execSelectQueries(d *xdb, r *hx.Rng, t xtable) {
 				parts = append(parts, op, wellTypedPred(r, t, ""))
 			}
 			d.query("SELECT id, a, b FROM t1 WHERE "+strings.Join(parts, " "), "exact", "select")
+		}
+	}
+	// statements that differ only INSIDE a quoted literal - letter case, the number of blanks - are
+	// different statements (anything that recognises a statement it has seen before must not fold them)
+	for _, pair := range [][2]string{{"ant", "Ant"}, {"b e", "b  e"}, {"cow", "COW"}, {"true", "TRUE"}, {"left", " left"}} {
+		for _, w := range pair {
+			d.query("SELECT id, b FROM t1 WHERE b = "+sqlLit(w), "exact", "literal-variants")
+			d.query("select  id, b from t1 where b = "+sqlLit(w), "exact", "literal-variants")
 		}
 	}
 	for i := 0; i < 25; i++ {
